@@ -130,6 +130,12 @@ class EvalNode(ConfigScalar(str)):
         if isinstance(ret, ConfigNode):
             assert ret is not self
             ret = ctx.evaluate_node(ret, path)
+        elif isinstance(ret, type(ctx.ecfg)):
+            # the code returned an entry of the config which has only been evaluated in part so far
+            # (the parts someone has asked for) - what it stands for is the evaluated entry,
+            # subject to the same requirements as any other config entry the code uses
+            with ctx.require_all_safe(self, path):
+                ret = ctx.evaluate_node(ret._cfgobj, ret._path)
         return ret
 
     @namespace('ayns')
